@@ -39,7 +39,7 @@ def setup_cur_state(ex, below_limit=True):
     ex.assume(L.is_Int(h.fld('ops_evaluated', CUR)))
     ex.assume(L.is_Int(h.fld('max_ops_evaluated', CUR)))
     ex.assume(ops(h) >= 0)
-    ex.assume(max_ops(h) >= 1)
+    # no assumption on the budget itself: a host may pass 0 or a negative number (nothing may start then)
     if below_limit:
         ex.assume(ops(h) < max_ops(h))
     ex.assume(CAP >= F.MAX_ARRAY)
